@@ -39,3 +39,43 @@ class _LoadAnyBytes:
 
     def control_never_raises(result):
         return False
+
+
+# =========================================================================================
+#  DiameterMessage.load -- the message splitter (C03: every byte string)
+# =========================================================================================
+from pyvc.seqs import ElemKind                                        # noqa: E402
+from bromelia.exceptions import DiameterMessageError                  # noqa: E402
+
+MSG_OPAQUE = ElemKind("msg", [("message", B.DiameterMessage, {})])   # list elements nobody inspects here
+
+
+def mload_inv(stream, index):
+    return 0 <= index
+
+
+def mload_variant(stream, index):
+    return len(stream) - index
+
+
+_MLOAD_VARS = {"index": T.Int(), "msgs": T.Seq(MSG_OPAQUE), "header_stream": T.NoneS, "header": T.NoneS,
+               "lower_limit": T.Int(), "upper_limit": T.Int(), "avp_stream": T.NoneS, "avps": T.NoneS,
+               "msg": T.NoneS}
+
+
+@contract("bromelia.base.DiameterMessage.load", prop="C03", name="any-bytes")
+class _MLoadAnyBytes:
+    """for EVERY byte string: the splitter terminates (each iteration consumes at least the 20 header
+    bytes, so at most len/20 + 1 iterations, each running the AVP parser on a slice of the input) and
+    either returns a list or raises one of the library's error types"""
+    args = {"stream": T.Bytes()}
+    loops = {0: Loop(vars=_MLOAD_VARS, inv=mload_inv, variant=mload_variant, min_decrease=20)}
+
+    def ensures_returns_list(result):
+        return isinstance(result, list)
+
+    def exceptional(exc):
+        return lib_error(exc)
+
+    def control_never_raises(result):
+        return False
